@@ -10,6 +10,14 @@ E3 = "procsim (process-level simulator: strace syscall fault / kill injection)"
 
 # id -> (engine, category, technique, level text, level note, design ref)
 CHECKS = {
+ "C05": (E1, "exploration",
+   "deterministic simulation: the adversary serves each metadata file from any repository state and in any byte variant (mix-and-match delivery); oracle over the bytes actually served",
+   "1..3 genuinely signed repository states with role versions 1..3, pins by version only / +length / +sha256, four byte variants per document (compact, pretty, member order reversed, junk signature entry), delegated role listed or omitted; SimTransport answers each request from a scenario-chosen (state, variant). On success the bytes served must match version, digest and length pinned by the document actually trusted above; matching servings must not be refused for pin reasons; under consistent snapshots the version-prefixed name from the pinning document must be the one requested.",
+   "Trusts harness SHA-256 and its record of which bytes were served for which request.", "DESIGN.md §5 C05"),
+ "C09": (E1, "exploration",
+   "deterministic simulation: hostile servers (padding, endless streams, endless root chains, cyclic delegation graphs) under randomised Limits, with a transport-enforced request budget",
+   "Per run: per-role limits from {0, size-1, exact, default, huge}, max_root_updates from {0,1,3,10}, 0..12 newer roots or an endless generator, delegation graphs incl. self-, mutual and 3-cycle delegation and a diamond, legitimate repositories with files exactly at their bound (delegated roles larger than targets.json), and padded/endless streams for any subset of files. Oracle: bytes pulled per request <= applicable bound + crossing chunk, root requests <= max_root_updates, total requests <= max_root_updates + 3 + delegations, termination, legitimate files not refused for size.",
+   "Byte counts come from the transport; a repository with exactly max_root_updates newer roots is not judged.", "DESIGN.md §5 C09"),
  "C01": (E1, "exploration",
    "deterministic simulation: Byzantine signature lists injected at each of 8 verification sites of a full simulated update cycle; ground-truth bookkeeping oracle; thorough tier sweeps the finite word space",
    "Every run builds a whole repository with the foreign publisher, replaces the signature list of one document (shipped root, root N+1 under old keys / new keys, timestamp, snapshot, targets, delegated role at depth 1 and 2) by a word over the property's 7-letter alphabet and runs tough's real update cycle; accept must coincide with the harness's count of distinct authorised valid signatures. Thorough enumerates all 19 608 words x 8 sites x 16 (keys, threshold) shapes, then seeded runs with mixed algorithms.",
